@@ -8,7 +8,8 @@
 From Coq Require Import List String ZArith Bool Arith.
 Import ListNotations.
 From KV Require Import Base.Bytes Model.Ast Model.Value Model.Eval Model.EvalVec Model.ScanProj
-                       Proofs.EvalVecProofs Proofs.ScanProjProofs Proofs.BatchRowProofs.
+                       Model.LimitLazy
+                       Proofs.EvalVecProofs Proofs.ScanProjProofs Proofs.BatchRowProofs Proofs.LimitLazyProofs.
 From KV Require Model.Limit.
 Local Open Scope nat_scope.
 Local Open Scope list_scope.
@@ -108,23 +109,41 @@ Theorem scan_batch_row : forall (fo : fops) (re : bytes -> bytes -> res bool)
 Proof. exact BatchRowProofs.scan_batch_row. Qed.
 Print Assumptions scan_batch_row.
 
-(* PARTIAL: with LIMIT (FinalLimitPlan on top).  Full statement, not proved:
-     for every statement `select ... where ... limit s, n`, every store and B >= 1: if the batch
-     drain of the whole plan completes without error, so does the row drain, with the same rows
-   (the child is pulled lazily, so a failing pair beyond what the limit consumes is harmless in
-   either mode).  Proved: the case where the child's complete batch drain succeeds. *)
-Theorem batch_row_agree_select_limit_partial : forall (fo : fops) (re : bytes -> bytes -> res bool)
+(* batch_row_agree for SELECT <fields | *> WHERE <wh> LIMIT start, count: FinalLimitPlan over
+   ProjectionPlan over a scan, in the twin whose child is PULLED (Model/LimitLazy.v): a pair on
+   which the WHERE clause or a field would fail beyond what the limit consumes is harmless in
+   either mode, and batch mode reads at least as far as row mode.  Every offset and count (also
+   0), every stream, every B >= 1. *)
+Theorem batch_row_agree_select_limit : forall (fo : fops) (re : bytes -> bytes -> res bool)
     (B start count : nat) (wh : expr) (fields : option (list expr)) (slots : list (option kvpair))
-    (outs : list (list (list (value fo)))),
+    (louts : list (list (list (value fo)))),
   1 <= B -> fields_ok fields ->
-  select_batch fo re B wh fields slots = Ok outs ->
-  exists louts rows lrows,
-    Limit.drain_batch true B start count outs = Some louts /\
-    select_row fo re wh fields slots = Ok rows /\
-    Limit.drain_row start count rows = Some lrows /\
-    Forall2 (same_content fo) lrows (List.concat louts).
-Proof. exact BatchRowProofs.select_limit_batch_row_agree_partial. Qed.
-Print Assumptions batch_row_agree_select_limit_partial.
+  select_limit_batch fo re B start count wh fields slots = Ok louts ->
+  exists lrows, select_limit_row fo re start count wh fields slots = Ok lrows /\
+                Forall2 (same_content fo) lrows (List.concat louts).
+Proof. exact LimitLazyProofs.select_limit_batch_row_agree. Qed.
+Print Assumptions batch_row_agree_select_limit.
+
+(* the pulled-child twin of the LIMIT node refines the list twin of C08 (Model/Limit.v): a
+   completed lazy batch drain is the list drain over the non-empty batches it pulled, whatever
+   the child would have returned afterwards ([tail]); if the child was seen exhausted, [tail] is
+   empty *)
+Theorem limit_lazy_refines_list : forall (S A : Type) (cbatch : S -> res (list A * S)),
+  (forall s s1, cbatch s = Ok ([], s1) -> cbatch s1 = Ok ([], s1)) ->
+  forall (fuel B start count : nat) (st : Limit.lstate) (s : S) (outs : list (list A)),
+  ldrain_batch_fuel cbatch fuel B start count st s = Ok outs ->
+  exists pb e s', pulled S A cbatch s pb e s' /\
+    forall tail, (e = true -> tail = []) ->
+      Limit.drain_batch_fuel true fuel B start count st (pb ++ tail) = Some outs.
+Proof. exact LimitLazyProofs.sim_drain. Qed.
+Print Assumptions limit_lazy_refines_list.
+
+(* NOT PROVED (no theorem; covered on every run only by the direct comparison of the two modes
+   of the implementation on whole statements):
+     batch_row_agree for statements with ORDER BY (FinalOrderPlan) and GROUP BY / aggregates
+     (AggregatePlan), i.e. forall stmt st B, drain_batch B stmt st = Ok rows ->
+       exists rows', drain_row stmt st = Ok rows' /\ rows ~ties rows'.
+   Their twins belong to C07 / C09 and are not composed here. *)
 
 (* ------------------------------------------------------------------ non-vacuity *)
 Local Open Scope string_scope.
@@ -161,3 +180,21 @@ Example exec_batch_ok_nonvacuous : forall (fo : fops) (re : bytes -> bytes -> re
   eval_batch fo re true ex_where [("a", "12"); ("k2", "1"); ("b", "-25")] =
     Ok [VBool true; VBool false; VBool false].
 Proof. intros fo re. reflexivity. Qed.
+
+(* LIMIT stops before a failing pair: 10 / (int(value) - 7) > 0 fails on the pair valued 7.
+   With LIMIT 0, 2 and B = 2 both modes return the first two matching rows and never evaluate
+   the last pair; without the LIMIT the statement fails (in both modes). *)
+Definition ex_store7 : list (option kvpair) :=
+  [Some ("a", "12"); Some ("b", "3"); Some ("c", "9"); Some ("d", "1"); Some ("e", "7")].
+Definition ex_where7 : expr :=
+  EBin 23 OGt (EBin 3 ODiv (ENum 0 "10")
+                  (EBin 18 OSub (ECall 6 (EName 6 "int") [EField 10 ValueKW]) (ENum 20 "7")))
+      (ENum 25 "0").
+Example batch_row_agree_select_limit_nonvacuous : forall (fo : fops) (re : bytes -> bytes -> res bool),
+  select_limit_batch fo re 2 0 2 ex_where7 None ex_store7 =
+    Ok [[[VBytes "a"; VBytes "12"]; [VBytes "c"; VBytes "9"]]] /\
+  select_limit_row fo re 0 2 ex_where7 None ex_store7 =
+    Ok [[VBytes "a"; VBytes "12"]; [VBytes "c"; VBytes "9"]] /\
+  select_batch fo re 2 ex_where7 None ex_store7 = Err (EExec 18) /\
+  select_row fo re ex_where7 None ex_store7 = Err (EExec 18).
+Proof. intros fo re. repeat split; reflexivity. Qed.
